@@ -74,6 +74,7 @@ pub enum Op {
     Query(usize, Expr),
     Sched(Dl, usize, Expr, Option<usize>, Option<i64>),
     Cancel(usize),
+    CancelAuto(usize),
     Panic(i64),
     /// build, run and drop a nested simulation (threads, models) inside the handler
     Nested(usize, usize),
@@ -97,6 +98,10 @@ pub enum Cmd {
     SchedEvent(Dl, usize, usize, i64, Option<usize>, Option<i64>),
     SchedSrc(Dl, usize, i64, Option<usize>, Option<i64>),
     Cancel(usize),
+    /// into_auto() + drop of the key in the slot
+    CancelAuto(usize),
+    /// slot b := clone of the key in slot a
+    CloneKey(usize, usize),
     Step,
     StepUntil(Dl),
     ProcEvent(usize, usize, i64),
@@ -232,6 +237,7 @@ impl<'a> P<'a> {
                 Op::Sched(d, i, e, sl, pe)
             }
             "can" => Op::Cancel(self.us()),
+            "cau" => Op::CancelAuto(self.us()),
             "pan" => Op::Panic(self.int()),
             "nst" => {
                 let t = self.us();
@@ -297,6 +303,11 @@ impl<'a> P<'a> {
                 Cmd::SchedSrc(d, s, v, sl, pe)
             }
             "cn" => Cmd::Cancel(self.us()),
+            "ca" => Cmd::CancelAuto(self.us()),
+            "ck" => {
+                let a = self.us();
+                Cmd::CloneKey(a, self.us())
+            }
             "st" => Cmd::Step,
             "su" => Cmd::StepUntil(self.dl()),
             "pe" => {
@@ -610,6 +621,11 @@ impl SM {
                 Op::Cancel(sl) => {
                     if let Some(k) = self.keys[*sl].take() {
                         k.cancel();
+                    }
+                }
+                Op::CancelAuto(sl) => {
+                    if let Some(k) = self.keys[*sl].take() {
+                        drop(k.into_auto());
                     }
                 }
                 Op::Panic(c) => {
@@ -1096,6 +1112,17 @@ fn run_inner(case: &Case) -> String {
                 if let Some(k) = dkeys[*sl].take() {
                     k.cancel();
                 }
+                "ok".into()
+            }
+            Cmd::CancelAuto(sl) => {
+                // cancellation by dropping an auto-cancelling key
+                if let Some(k) = dkeys[*sl].take() {
+                    drop(k.into_auto());
+                }
+                "ok".into()
+            }
+            Cmd::CloneKey(a, b) => {
+                dkeys[*b] = dkeys[*a].clone();
                 "ok".into()
             }
             Cmd::Step => match simu.step() {
